@@ -363,7 +363,9 @@ impl Property for C10Prop {
                     }
                 }
                 let pw = model.borrow_mut().pending_wake.take();
-                if let Some(h) = pw {
+                // (Only meaningful while that writer is still the one the permit was handed to.)
+                let still_assigned = pw.is_some() && model.borrow().holder == pw;
+                if let Some(h) = pw.filter(|_| still_assigned) {
                     if !skip_runtime_turn && ex.is_alive(h) && !ex.runnable().contains(&h) && !ex.wait_for_wake(h).await {
                         stall = Some(format!("writer{h} (permit never released after an abort)"));
                         break;
